@@ -136,6 +136,27 @@ class RefState:
             if any(self.start(j, x) < min_end[x] for x in self.m[j][p])
         ]
 
+    # ---- user-written filters (callables defined in jsverif/lib.py); their
+    # specification is the same selection expressed on (job, pos) pairs
+    def f_custom_first_job_only(self, ops):
+        """Offer only the ready operation of the lowest-numbered job."""
+        return ops[:1]
+
+    def f_custom_last_job_only(self, ops):
+        return ops[-1:]
+
+    def f_custom_hide_earliest(self, ops):
+        """Withhold the operations that could start earliest (unless nothing
+        else is left)."""
+        t = self.min_start(ops)
+        rest = [
+            (j, p) for (j, p) in ops if min(self.start(j, x) for x in self.m[j][p]) > t
+        ]
+        return rest or list(ops)
+
+    def f_custom_identity(self, ops):
+        return list(ops)
+
     def apply_filter(self, name, ops):
         return getattr(self, "f_" + name)(ops)
 
